@@ -740,6 +740,7 @@ func run(c *core.Ctx) error {
 	traces := [][]tevent{}
 	confirmed := map[string]bool{}
 	outcomes := map[string]int{}
+	timeBy := map[string]int64{}
 	for i := range cases {
 		cs := &cases[i]
 		res := r.results[i]
@@ -748,6 +749,7 @@ func run(c *core.Ctx) error {
 			continue
 		}
 		outcomes[cs.Kind+":"+res.Outcome]++
+		timeBy[cs.Kind+":"+formatOf(cs)] += res.Nanos
 		key := fmt.Sprintf("%s|%s|%v|%s|%x", cs.Kind, cs.Reader, cs.Opts, cs.Consumer, cs.Data)
 		switch res.Outcome {
 		case "ok":
@@ -811,6 +813,11 @@ func run(c *core.Ctx) error {
 		oc[k] = outcomes[k]
 	}
 	c.Set("outcomes", oc)
+	tb := map[string]float64{}
+	for k, v := range timeBy {
+		tb[k] = float64(v/1e6) / 1e3
+	}
+	c.Set("child_seconds_by_kind", tb)
 
 	// ---- R3: validate hook traces with TLC
 	if err := validateTraces(c, traces, rng); err != nil {
